@@ -73,6 +73,8 @@ impl PoolInner {
         }
         #[cfg(folo_verif)]
         crate::__verif::point("ensure/after-shutdown-load");
+        #[cfg(folo_verif)]
+        crate::__verif::point("ensure/before-get-or-init");
 
         let state = self.registry.get_or_init(processor_id);
         #[cfg(folo_verif)]
